@@ -193,13 +193,13 @@ class Ctx:
     def _bound(self, t: T):
         return z3.Const(self.fresh_name('q'), self.sort(t))
 
-    def forall(self, ts, fn):
-        return self._quant(ts, fn, True)
+    def forall(self, ts, fn, pat=None):
+        return self._quant(ts, fn, True, pat)
 
-    def exists(self, ts, fn):
-        return self._quant(ts, fn, False)
+    def exists(self, ts, fn, pat=None):
+        return self._quant(ts, fn, False, pat)
 
-    def _quant(self, ts, fn, univ):
+    def _quant(self, ts, fn, univ, pat=None):
         ts = list(ts)
         if all(t.k == 'u' and self.is_enumerated(t.name) for t in ts):
             bodies = [fn(*combo) for combo in itertools.product(*[self.consts(t.name) for t in ts])]
@@ -224,7 +224,13 @@ class Ctx:
                 args[i] = b
             body = fn(*args)
             bs = [b for _, b in bound]
-            outs.append(z3.ForAll(bs, body) if univ else z3.Exists(bs, body))
+            kw = {}
+            if pat is not None:
+                try:
+                    kw['patterns'] = [pat(*args)]
+                except Exception:
+                    kw = {}
+            outs.append(z3.ForAll(bs, body, **kw) if univ else z3.Exists(bs, body, **kw))
         return (z3.And(outs) if univ else z3.Or(outs)) if len(outs) != 1 else outs[0]
 
     # ------------------------------------------------------------------- sets
